@@ -81,13 +81,23 @@ def run_shards(prop, tier, seed, meta, replay=None):
                 with open(out) as fh:
                     results.append(json.load(fh))
             except Exception:  # noqa: BLE001
-                tail = open(os.path.join(tmp, f"{s}.log")).read()[-800:]
+                # (the scratch directory itself may be gone -- somebody cleaned /tmp: a harness problem, never a verdict)
+                try:
+                    tail = open(os.path.join(tmp, f"{s}.log")).read()[-800:]
+                except OSError as e:
+                    tail = f"no shard log: {e}"
                 problems.append(f"shard {s}: worker died rc={rc}: {tail}")
             if replay:
-                sys.stdout.write(open(os.path.join(tmp, f"{s}.log")).read())
-    for f in os.listdir(tmp):
-        os.unlink(os.path.join(tmp, f))
-    os.rmdir(tmp)
+                try:
+                    sys.stdout.write(open(os.path.join(tmp, f"{s}.log")).read())
+                except OSError:
+                    pass
+    try:
+        for f in os.listdir(tmp):
+            os.unlink(os.path.join(tmp, f))
+        os.rmdir(tmp)
+    except OSError:
+        pass
     return results, problems
 
 
